@@ -13,6 +13,10 @@ TRUSTED = {
           "arguments bound by name, re-entrant inputs immediate, undeclared pair => NoTransition)",
     "T2": "libraries behave as documented: spake2, PyNaCl SecretBox, cryptography HKDF, Noise, Twisted, os.path, zipfile",
     "T3": "environment of the mailbox client used by the typestate analysis (DESIGN.md section 3)",
+    "T5": "environment of the two-party dilation product (sa/dilprod.py docstring; DESIGN.md 12.9): in-order mailbox channels between "
+          "the two Managers, gated by the Dilator until versions and cut off by stop(); links come up only while both Connectors race, "
+          "the Leader's end finishes its handshake first, the Follower's end offers itself on KCM, either end can die at any time; "
+          "listen() Deferreds fire synchronously (Twisted TCP); eventual / callLater calls fire at any later moment unless cancelled",
     "T4": "the composition 'lemmas => property' is a paper argument (DESIGN.md section 4); the check discharges the lemmas",
 }
 
